@@ -7,7 +7,7 @@ import time
 from fractions import Fraction
 
 from . import terms as T
-from .norm import NormFail, Normaliser
+from .norm import NormFail, Normaliser, path_fixed
 
 
 class Verdict:
@@ -139,7 +139,7 @@ def z3_check(constraints_terms, negated_goal_terms, timeout_ms, box=None, seed=0
     return str(r), env, time.time() - t0
 
 
-def discharge(pairs, path, defined, witness, timeout_s=10.0, seed=0, norm_first=False, labels=None):
+def discharge(pairs, path, defined, witness, timeout_s=10.0, seed=0, norm_first=False, labels=None, raw_first_s=1.0):
     """pairs: list of (lhs cell, rhs cell), equality obligations (bool cells: lhs == rhs as iff)."""
     t0 = time.time()
     live = []
@@ -163,11 +163,9 @@ def discharge(pairs, path, defined, witness, timeout_s=10.0, seed=0, norm_first=
 
     def try_norm():
         try:
-            N = Normaliser([x for p in lp for x in p])
+            N = Normaliser([x for p in lp for x in p], fixed=path_fixed(path))
             residual = []
             for k, (a, b) in enumerate(lp):
-                if T.sort_of(a) == T.B or T.sort_of(b) == T.B:
-                    raise NormFail("bool pair")
                 p = N.diff_numerator(a, b)
                 if p != 0:
                     residual.append((k, len(p)))
@@ -176,32 +174,41 @@ def discharge(pairs, path, defined, witness, timeout_s=10.0, seed=0, norm_first=
             detail["norm_fail"] = str(e)
             return None
 
-    if norm_first:
-        res = try_norm()
-        if res is not None and not res:
-            return Verdict("proved", "NORM", time.time() - t0, detail=detail, queries=queries)
-    # 2. RAW z3 over the whole disjunction
     neg = [T.lnot(T.eq(a, b)) for a, b in lp]
-    try:
-        r, menv, secs = z3_check(list(path) + list(defined), neg, timeout_s * 1000, seed=seed)
-        queries += 1
-    except T.UnsupportedTerm as e:
-        r, menv = "unknown", None
-        detail["z3_fail"] = str(e)
-    detail["raw"] = r
-    if r == "unsat":
-        return Verdict("proved", "RAW", time.time() - t0, detail=detail, queries=queries)
-    if r == "sat":
-        full = dict(witness)
-        full.update(menv)
-        return Verdict("refuted", "RAW", time.time() - t0, model=full, detail=detail, queries=queries)
-    # 3. NORM
+
+    def try_raw(tmo):
+        nonlocal queries
+        try:
+            r, menv, secs = z3_check(list(path) + list(defined), neg, tmo * 1000, seed=seed)
+            queries += 1
+        except T.UnsupportedTerm as e:
+            r, menv = "unknown", None
+            detail["z3_fail"] = str(e)
+        detail["raw"] = r
+        if r == "unsat":
+            return Verdict("proved", "RAW", time.time() - t0, detail=detail, queries=queries)
+        if r == "sat":
+            full = dict(witness)
+            full.update(menv)
+            return Verdict("refuted", "RAW", time.time() - t0, model=full, detail=detail, queries=queries)
+        return None
+
+    # 2. RAW z3 over the whole disjunction, short cap (polynomial identities and refutations come back in ms)
     if not norm_first:
-        res = try_norm()
-        if res is not None and not res:
-            return Verdict("proved", "NORM", time.time() - t0, detail=detail, queries=queries)
-        if res:
-            detail["norm_residual"] = res[:4]
+        v = try_raw(min(raw_first_s, timeout_s))
+        if v is not None:
+            return v
+    # 3. NORM
+    res = try_norm()
+    if res is not None and not res:
+        return Verdict("proved", "NORM", time.time() - t0, detail=detail, queries=queries)
+    if res:
+        detail["norm_residual"] = res[:4]
+    # 4. RAW with the full cap
+    if timeout_s > raw_first_s or norm_first:
+        v = try_raw(timeout_s)
+        if v is not None:
+            return v
     return Verdict("unknown", "-", time.time() - t0, detail=detail, queries=queries)
 
 
